@@ -10,7 +10,7 @@ import codec
 import kv
 
 ALPHA = ['o 0 0 0', 'o 0 1 0', 'o 1 1 0', 'o 1 0 0', 'o 2 0 0 child', 'o 2 1 1 child', 'o 0 1 2', 'o 1 1 2', 'c 0', 'c 1', 'c 2', 'p 0', 'p 1',
-         'corrupt 1', 'corrupt 0', 'q 0', 'q 1', 'logsum']
+         'corrupt 1', 'corrupt 0', 'q 0', 'q 1', 'k 0', 'k 1', 'logsum']
 
 
 def gen_cases(rng, tier):
@@ -33,7 +33,7 @@ def gen_cases(rng, tier):
         cases.append(seq)
     # a torn tail on the head log: read-only opens (plain, Check, Recover, also from a child process) must refuse or
     # ignore it, never repair it
-    RO = ['o 0 1 0', 'o 0 1 1', 'o 0 1 2', 'o 1 1 2', 'o 1 1 1', 'o 2 1 2 child', 'o 2 1 0 child', 'c 0', 'c 1', 'c 2', 'q 0', 'p 0', 'd 1', 'logsum']
+    RO = ['o 0 1 0', 'o 0 1 1', 'o 0 1 2', 'o 1 1 2', 'o 1 1 1', 'o 2 1 2 child', 'o 2 1 0 child', 'c 0', 'c 1', 'c 2', 'q 0', 'k 0', 'p 0', 'd 1', 'logsum']
     for i in range(40 if tier == 'quick' else 800):
         mid = [rng.choice(RO) for _ in range(rng.randrange(3, 8))]
         pre = ['corrupt 1'] if rng.random() < 0.3 else []
